@@ -26,6 +26,19 @@ CHECKS = {
         note="Lean kernel + {propext, Classical.choice, Quot.sound}; translator; correspondence harness; flags assumed 0/1.",
         technique="Lean 4 proof over hand-written models + translator-generated formulas + differential correspondence",
         design="§6 C03"),
+    "C04": dict(
+        text="Lean theorems: model of units inheritance (inherit / default / explicit, script -> system -> network / space -> "
+             "species / reaction / node / edge) and of process_unitvar_input; re-scaling the bare numbers of a level together with "
+             "its declaration, or replacing them by explicit quantities, builds the same SI system (hence the same state, rate and "
+             "trajectory); explicit quantities ignore the surrounding system; the rate law is homogeneous of dimension amount/time "
+             "under any change of units (dim k = (3n-3,-1,1-n)); an Euler step commutes with unit conversion and so does a "
+             "trajectory of any fixed number of steps; output units only scale. Tie: translator (Units tables, k dimensions, "
+             "marshalling) + correspondence `build_system` on both members of random pairs (d, rescale σ d) + pairwise oracle on "
+             "the real code (state, chemostats, rate, Euler trajectory in SI).",
+        note="Lean kernel + {propext, Classical.choice, Quot.sound}; translator; correspondence harness; float rounding assumed "
+             "within 1e-9 (checked on every sampled pair, not proved).",
+        technique="Lean 4 proof over hand-written models + translator-generated tables + differential / metamorphic correspondence",
+        design="§6 C04"),
     "C06": dict(
         text="Lean theorems: generated unit tables (regenerated from units.py on every run) have their SI meaning "
              "(whole-table kernel evaluation); conversion factor = ratio of SI values; identity, composition, inverse, "
